@@ -2,7 +2,7 @@
 import importlib.util, os
 _spec = importlib.util.spec_from_file_location("g02", os.path.join(os.path.dirname(os.path.abspath(__file__)), "C02.py"))
 _c02 = importlib.util.module_from_spec(_spec); _spec.loader.exec_module(_c02)
-GROUPS = [dict(g) for g in _c02.GROUPS if g["name"].startswith("hmm_vit_eval")] + [
+GROUPS = [dict(g) for g in _c02.GROUPS if g["name"].startswith("hmm_vit_eval") or g["name"] == "hmm_normalize"] + [
     dict(name="int16_float_exact", harness="harness/C18_lemmas.c", entry="r_int16_float_exact", allow_no_body=["*"],
          bounded=None),
 ]
@@ -28,7 +28,7 @@ HAND_LEMMAS = ["scores never wrap along a path: each step keeps every state scor
 NOT_COVERED = ["finiteness of cepstra, dynamic features and CMN state is decided only for the enumerated signal x configuration family by the native run feature_finite_enum (bounded stand-in, never counted as proved): "
                "the FFT / log / DCT pipeline is transcendental floating point over loops, outside what CBMC contracts decided here",
                "senone score range and best-score normalisation (ptm_mgau for en-us, the fr-fr scorer): decided only on two recordings with random active sets by the native run senone_score_enum (bounded, never counted as proved); ms_mgau / s2_semi_mgau only as far as the bundled models use them",
-               "hmm_normalize / renormalisation in fsg_search", "dither on, warping, other sample rates / filterbank sizes, the lda transform"]
+               "renormalisation of path scores in fsg_search (hmm_normalize itself, used by the state aligner, is proved: group hmm_normalize)", "dither on, warping, other sample rates / filterbank sizes, the lda transform"]
 CLAIM = dict(
     text="Integer clauses only: each Viterbi step of the 3-state evaluators keeps every state and exit score clamped in [WORST_SCORE, 0] and performs no signed overflow, for all inputs satisfying the HMM invariant (same proofs as C02 with overflow obligations on); the int16 -> float32 sample scaling round trip is exact for all 65 536 sample values. Finiteness of every cepstral / dynamic-feature value and of the CMN state (with text export -> import -> export stability) is checked by a native enumeration of 13 extreme signals x 2 sample types x 144 front-end / feature configurations through the real pipeline (bounded stand-in, not proof), which found a genuine defect (batch CMN of digital silence = 0/0 -> NaN features), repaired. The 16-bit acoustic-score range and best-score normalisation are checked on every frame of two recordings for random active senone sets, including the re-request of the frame just left with a different set (bounded native run, not proof).",
     note="integer clauses by contract; feature / CMN finiteness by a bounded native enumeration of extreme signals (not proof); senone scoring not covered; trusted: CBMC 6.11, libm isfinite",
